@@ -402,6 +402,9 @@ func c08Iterables(r *core.Rng) []c08Iter {
 	its = append(its, mk("between", "between(3, 6)", []string{"4", "5"}, []string{"4", "5"}))
 	its = append(its, mk("until", "until(3)", []string{"0", "1", "2"}, []string{"0", "1", "2"}))
 	its = append(its, mk("until0", "until(0)", nil, nil))
+	// an operator expression whose right operand is a call: the { after it opens the loop body
+	its = append(its, mk("sum-ending-in-a-call", "ints2 + len(strs3)", []string{"10", "20", "3"}, []string{"10", "20", "3"}))
+	its = append(its, mk("index-by-a-call", "msl2[up(\"k\")]", []string{"a", "b"}, []string{`"a"`, `"b"`}))
 	its = append(its, mk("custom-iterator", "citer", []string{"1", "2", "3"}, []string{"1", "2", "3"}))
 	its = append(its, mk("nil-literal", "nil", nil, nil))
 	its = append(its, mk("nil-from-missing-key", "msl[\"nokey\"]", nil, nil))
@@ -443,6 +446,8 @@ func c08Ctx() *plush.Context {
 	ctx.Set("pints", &[]int{10, 20})
 	ctx.Set("citer", plush.Iterator(&countIter{max: 3}))
 	ctx.Set("msl", map[string][]string{})
+	ctx.Set("msl2", map[string][]string{"K": {"a", "b"}})
+	ctx.Set("up", strings.ToUpper)
 	ctx.Set("nilslice", []int(nil))
 	ctx.Set("nilmap", map[string]int(nil))
 	ctx.Set("npslice", (*[]int)(nil))
